@@ -1,6 +1,7 @@
 package main
 
 import (
+	"bytes"
 	"context"
 	"fmt"
 	"strings"
@@ -32,12 +33,16 @@ type ccfg struct {
 	NestOp  string // "" = Get | "ping": the blocking call issued from inside the handler
 	OwnMID  bool   // udp: the peer's confirmable request 1 carries the message ID this endpoint uses next for its own messages, and the nested request is confirmable
 	Drop    int    // >0: the connection's request monitor drops request number Drop (it must not stop the ones behind it)
+	Big     int    // tcp, >0: request 1 carries a payload of Big bytes (larger than the read buffer) and the whole burst arrives in one segment
 }
 
 func (c ccfg) String() string {
 	x := ""
 	if c.NestOp != "" {
 		x += " nested-call=" + c.NestOp
+	}
+	if c.Big > 0 {
+		x += fmt.Sprintf(" request-1-payload=%d-bytes one-segment", c.Big)
 	}
 	if c.Drop > 0 {
 		x += fmt.Sprintf(" request-monitor-drops=req%d", c.Drop)
@@ -155,7 +160,10 @@ func connScenario(c ccfg) *mcx.Scenario {
 				for i := 1; i <= c.N; i++ {
 					burst = append(burst, message.Message{Code: codes.POST, Token: message.Token{0x30 + byte(i)}, Options: message.Options{{ID: message.URIPath, Value: []byte(fmt.Sprintf("req%d", i))}}})
 				}
-				if c.Drop > 0 && injectBurst != nil {
+				if c.Big > 0 {
+					burst[0].Payload = bytes.Repeat([]byte{0x5a}, c.Big)
+				}
+				if (c.Drop > 0 || c.Big > 0) && injectBurst != nil {
 					injectBurst(burst)
 				} else {
 					for _, m := range burst {
@@ -239,6 +247,12 @@ func runConn(r *ev.Run, scs *[]*mcx.Scenario) {
 		if t == "udp" {
 			for _, q := range []int{0, 1, 16} {
 				*scs = append(*scs, connScenario(ccfg{T: t, Q: q, N: 3, Nest: 1, OwnMID: true, Preempt: ev.Pick(r, 0, 1)}))
+			}
+		}
+		if t == "tcp" {
+			// a frame larger than the read buffer with the next messages already behind it in the stream
+			for _, big := range []int{5000, 9000, 16384 + 7} {
+				*scs = append(*scs, connScenario(ccfg{T: t, Q: 16, N: 3, Nest: 0, Big: big, Preempt: 0}))
 			}
 		}
 		for _, d := range []int{1, 2, 4} {
